@@ -36,7 +36,7 @@ CHECKS = {
              "ones); every history is replayed through the real Mesh API and each written file compared (parsed, "
              "numbering-independent) with the file of the fresh model, entity points with the model's positions.",
         note="Oracle is relational: the fresh model is written by the same library; faithfulness of a single write is C06. "
-             "Operations are lattice boxes; the first takes its cells across from its neighbour, the others are chopped by first cell size (a model that cannot be graded must fail like its fresh model); calls the statement does not speak about (add/delete/merge "
+             "Operations are lattice boxes; only the last of the row is chopped across (by cell size alone), the others copy from it - variant B chops the first of three as well (a model that cannot be graded must fail like its fresh model); calls the statement does not speak about (add/delete/merge "
              "while assembled) are not generated.",
         technique="TLA+ spec Mesh.tla: TLC BFS/-simulate generates histories + expected fresh model; replay into the real API",
         ref="DESIGN.md section 4 C12, Appendix B"),
@@ -101,7 +101,7 @@ CHECKS = {
              "with blockMesh's multi-grading law; SizesJudge.tla (TLC) decides each record: same physical cell sequence from "
              "every block sharing an edge, preserved size/ratio on every wire of the chop's family at the geometrically "
              "same end (orientation propagated through the recorded topology). Round shapes with arcs/splines likewise."
-             " Half of the lattice configurations use a product grid with one displaced vertex (exactly one of four parallel edges differs). The repository's example scripts are run unmodified as recorded executions and every dictionary they write is judged by File.tla (SizesJudge SharedSeq).",
+             " Half of the lattice configurations use a product grid with one displaced vertex (exactly one of four parallel edges differs). The repository's example scripts are run unmodified as recorded executions and every dictionary they write is judged by File.tla (SizesJudge SharedSeq). Four lattice configurations in five are written a second time after one mesh vertex was moved (no backport) and the second file is judged the same way.",
         note="Sizes are abstracted to integer codes round(1e6 ln(size)) and compared with tolerance 3e-5; spline edge lengths "
              "are polyline approximations (only used for equality between blocks). Families with two different user laws are "
              "not generated (the statement does not say which law wins).",
